@@ -31,7 +31,7 @@ func e2eTrack(c *e2eCtx, decoys bool) error {
 		"syntax tree+comments modulo artefacts, marker block shape, id numbering, component closure, service start, differing paths, then one of seven histories (nothing, delete markers, patch to N=0, git checkout, insert markers, a patch round, inserts into fresh files + patch), goat clean and its oracles; "+
 		"non-trivial = at least one tracking call was inserted", n, decoys)
 	c.parallel(n, func(i int, r *rand.Rand) {
-		o := proj.Opts{InScope: true, RootMain: r.Intn(3) == 0, Asm: true, Decoys: decoys}
+		o := proj.Opts{InScope: true, RootMain: r.Intn(3) == 0, Asm: true, Decoys: decoys, GoVersions: true}
 		s, err := c.newScenario(i, r, o, func(r *rand.Rand, old string) proj.Config {
 			cfg := randomConfig(r, old)
 			if decoys {
@@ -71,6 +71,13 @@ func e2eTrack(c *e2eCtx, decoys bool) error {
 					}
 				}
 			}
+		}
+		if !directed && i%14 == 5 { // `mainEntries: []` (hand-edited): no main package is selected
+			s.cfg.MainEntries = []string{}
+			proj.WriteConfig(s.dir, s.cfg)
+			s.desc = cfgDesc(s.cfg)
+			directed = true
+			c.count("config:mainEntries-empty-list")
 		}
 		if !directed && r.Intn(3) == 0 { // select a subset of mains
 			var sel []string
@@ -311,6 +318,7 @@ func (c *e2eCtx) trackAndJudge(s *scenario, decoys bool, r *rand.Rand) {
 	}
 	// ---- clean
 	os.Remove(wl)
+	preClean := proj.ReadTree(s.dir)
 	cl := proj.RunGoat(c.goat, s.dir, []string{"GOAT_VERIF_WRITELOG=" + wl}, "clean")
 	if cl.Exit != 0 || isPanic(cl.Stderr) {
 		c.violate("C06", fmt.Sprintf("goat clean exited %d after track: %s", cl.Exit, lastLine(cl.Stderr)), rp(map[string]any{"clean_stderr": tail(cl.Stderr, 1200)}))
@@ -359,6 +367,15 @@ func (c *e2eCtx) trackAndJudge(s *scenario, decoys bool, r *rand.Rand) {
 		}
 		if !eligible(path, s.cfg) {
 			c.violate("C13", path+" was modified by clean although it is not eligible", rp(nil))
+		}
+	}
+	// a Go file that no command had touched before clean (same bytes as in the new revision: no changed
+	// line was instrumented in it, it is not a main entry, no marker was put into it) holds no
+	// artefact, so clean has no business writing it
+	for _, path := range sortedKeys(s.newTree) {
+		if strings.HasSuffix(path, ".go") && preClean[path] == s.newTree[path] && cleaned[path] != preClean[path] {
+			c.violate("C13", path+" holds no artefact (untouched by track / patch) but its bytes differ after clean", rp(map[string]any{"file": path, "content": cleaned[path]}))
+			break
 		}
 	}
 	// files that are not Go sources are never modified or deleted
